@@ -67,33 +67,31 @@ Proof.
   - apply orb_prop in Hn as [Hn|Hn]; [now apply A|]. destruct (Hb' Hn) as (g & Hg & En & Hi). rewrite <- En. now apply B.
 Qed.
 
-(* mergeRootObjects keeps every field of the later input and every accumulated field that is not of the shape of the
-   Relay entry point *)
+(* mergeRootObjects keeps (the name of) every field of the later input and of every accumulated field — since the fix
+   also of one of the shape of the Relay entry point *)
 Lemma root_names accf : forall fields fs, root_fields accf fields = Some fs ->
   (forall n, field_named n fields = true -> field_named n fs = true) /\
-  (forall g, In g accf -> is_builtin (f_name g) = false -> is_node_field g = false -> field_named (f_name g) fs = true).
+  (forall g, In g accf -> is_builtin (f_name g) = false -> field_named (f_name g) fs = true).
 Proof.
   induction accf as [|f t IH]; intros fields fs H; cbn [root_fields] in H.
   - inversion H; subst. split; [auto|intros g []].
-  - destruct (is_builtin (f_name f) || is_node_field f) eqn:E.
-    + destruct (IH _ _ H) as [A B]. split; [exact A|]. intros g [<-|Hg] Hb Hn; [rewrite Hb, Hn in E; discriminate|auto].
-    + destruct (field_named (f_name f) fields); [discriminate|]. destruct (IH _ _ H) as [A B]. split.
-      * intros n Hn. apply A. rewrite field_named_app, Hn. reflexivity.
-      * intros g [<-|Hg] Hb Hn; [|auto]. apply A. rewrite field_named_app, (field_named_In f [f] (or_introl eq_refl)). apply orb_true_r.
+  - destruct (is_builtin (f_name f)) eqn:E.
+    + destruct (IH _ _ H) as [A B]. split; [exact A|]. intros g [<-|Hg] Hb; [rewrite Hb in E; discriminate|auto].
+    + destruct (is_node_field f && field_named (f_name f) fields) eqn:E2.
+      * destruct (IH _ _ H) as [A B]. split; [exact A|]. intros g [<-|Hg] Hb; [|auto].
+        apply andb_true_iff in E2 as [_ E2]. apply A, E2.
+      * destruct (field_named (f_name f) fields); [discriminate|]. destruct (IH _ _ H) as [A B]. split.
+        -- intros n Hn. apply A. rewrite field_named_app, Hn. reflexivity.
+        -- intros g [<-|Hg] Hb; [|auto]. apply A. rewrite field_named_app, (field_named_In f [f] (or_introl eq_refl)). apply orb_true_r.
 Qed.
 
 Definition fielded_kind (k : kind) : Prop := k = KObject \/ k = KInterface \/ k = KInput.
 
-(* no service declares, on the root type T, a field called n of the shape of the Relay entry point *)
-Definition no_node_shape (inputs : list input) (T n : string) : Prop :=
-  forall u s d g, In (u, s) inputs -> In d s -> d_name d = T -> In g (d_fields d) -> f_name g = n -> is_node_field g = false.
-
 Lemma put_names va nvb d : merge_def va nvb = Put d -> fielded_kind (d_kind nvb) ->
   forall n, n <> "id" -> is_builtin n = false ->
-  (is_root (d_name nvb) = true -> forall g, In g (d_fields va) -> f_name g = n -> is_node_field g = false) ->
   field_named n (d_fields nvb) || field_named n (d_fields va) = true -> field_named n (d_fields d) = true.
 Proof.
-  unfold merge_def. intros H Hk n Hid Hb Hroot Hn.
+  unfold merge_def. intros H Hk n Hid Hb Hn.
   destruct (d_name nvb =? "Node"); [discriminate|].
   destruct (negb (kind_eqb (d_kind nvb) (d_kind va))); [discriminate|].
   assert (G : (if negb (Bool.eqb (implements_node nvb) (implements_node va)) then Fail ENodeCollision
@@ -104,7 +102,7 @@ Proof.
   - unfold merge_root in G. destruct (root_fields (d_fields va) (d_fields nvb)) as [fs|] eqn:E; [|discriminate].
     inversion G; subst d. cbn [d_fields]. destruct (root_names _ _ _ E) as [A B].
     apply orb_prop in Hn as [Hn|Hn]; [now apply A|].
-    apply field_named_ex in Hn as (g & Hg & En). rewrite <- En. apply B; [exact Hg|now rewrite En|]. now apply (Hroot eq_refl g Hg En).
+    apply field_named_ex in Hn as (g & Hg & En). rewrite <- En. apply B; [exact Hg|now rewrite En].
   - unfold merge_custom in G. destruct (mcf nvb va) as [e|fs] eqn:M1; [discriminate|]. destruct (mcf va nvb); [discriminate|].
     inversion G; subst d. cbn [d_fields]. eapply mcf_names; eauto.
     intros Eq. rewrite Eq in R. discriminate.
@@ -113,13 +111,13 @@ Qed.
 (* the invariant: names of every earlier service's types are still there *)
 Definition SupF (all : list input) (inputs : list input) (acc : schema) : Prop :=
   forall u s d n, In (u, s) inputs -> In d s -> is_builtin (d_name d) = false -> d_name d <> "Node" -> fielded_kind (d_kind d) ->
-    n <> "id" -> is_builtin n = false -> (is_root (d_name d) = true -> no_node_shape all (d_name d) n) ->
+    n <> "id" -> is_builtin n = false ->
     field_named n (d_fields d) = true ->
     exists D, find_def (d_name d) acc = Some D /\ field_named n (d_fields D) = true.
 
 Lemma supf_first all u s : wf_schema s -> SupF all [(u, s)] s.
 Proof.
-  intros [Hnd _] u' s' d n [E|[]] Hd _ _ _ _ _ _ Hn. inversion E; subst. exists d. split; [now apply find_def_of_In|exact Hn].
+  intros [Hnd _] u' s' d n [E|[]] Hd _ _ _ _ _ Hn. inversion E; subst. exists d. split; [now apply find_def_of_In|exact Hn].
 Qed.
 
 Lemma supf_step all inputs acc u s res :
@@ -129,15 +127,9 @@ Lemma supf_step all inputs acc u s res :
 Proof.
   intros Hincl Hwf [Hnd Hroot] [Ind Isub Isup] HS Hm.
   pose proof (merge_types_find acc s res Hnd Hm) as Hfind.
-  intros u' s' d n Hi Hd Hb Hnode Hk Hid Hbn Hr Hn. rewrite Hfind.
-  (* whatever is merged under this name: the accumulated definition's fields called n are not node-shaped on a root *)
-  assert (Hacc : forall D0, find_def (d_name d) acc = Some D0 -> is_root (d_name d) = true ->
-                 forall g, In g (d_fields D0) -> f_name g = n -> is_node_field g = false).
-  { intros D0 HD0 Hrt g Hg En. apply find_def_some in HD0 as [HD0 HDn].
-    destruct (Isub D0 g HD0 Hg) as (u0 & s0 & d0 & H1 & H2 & H3 & H4).
-    apply (Hr Hrt u0 s0 d0 g); auto; [apply Hincl; apply in_or_app; now left|congruence]. }
+  intros u' s' d n Hi Hd Hb Hnode Hk Hid Hbn Hn. rewrite Hfind.
   apply in_app_or in Hi as [Hi|[E|[]]].
-  - destruct (HS u' s' d n Hi Hd Hb Hnode Hk Hid Hbn Hr Hn) as (D0 & HD0 & Hn0).
+  - destruct (HS u' s' d n Hi Hd Hb Hnode Hk Hid Hbn Hn) as (D0 & HD0 & Hn0).
     destruct (Isup u' s' d Hi Hd Hb) as (D0' & HD0' & Hkind). rewrite HD0 in HD0'. inversion HD0'; subst D0'.
     destruct (touched (d_name d) s) as [nvb|] eqn:T; [|exists D0; auto].
     apply touched_some in T as (Hin & Hnm & Hnb). unfold entry. rewrite Hnm, HD0.
@@ -146,9 +138,7 @@ Proof.
     + exists D. split; [reflexivity|].
       destruct (put_kind _ _ _ Md) as (K1 & _ & _).
       assert (Hk' : fielded_kind (d_kind nvb)) by (rewrite K1, <- (Hkind Hnode); exact Hk).
-      apply (put_names D0 nvb D Md Hk' n Hid Hbn).
-      * rewrite Hnm. intros Hrt. now apply Hacc.
-      * rewrite Hn0. apply orb_true_r.
+      apply (put_names D0 nvb D Md Hk' n Hid Hbn). rewrite Hn0. apply orb_true_r.
     + exfalso. eapply (merge_no_fail acc s res nvb D0 e); eauto. now rewrite Hnm.
   - inversion E; subst u' s'. rewrite (touched_of_In s d Hnd Hd Hb). unfold entry.
     destruct (find_def (d_name d) acc) as [va|] eqn:Fa; [|exists d; auto].
@@ -159,9 +149,7 @@ Proof.
       destruct Hk as [K|[K|K]]; rewrite K in Md;
         (destruct (negb (Bool.eqb (implements_node d) (implements_node va))); [discriminate|];
          destruct (if is_root (d_name d) then merge_root d va else merge_custom d va); discriminate).
-    + exists D. split; [reflexivity|]. apply (put_names va d D Md Hk n Hid Hbn).
-      * intros Hrt. now apply Hacc.
-      * rewrite Hn. reflexivity.
+    + exists D. split; [reflexivity|]. apply (put_names va d D Md Hk n Hid Hbn). rewrite Hn. reflexivity.
     + exfalso. eapply (merge_no_fail acc s res d va e); eauto.
 Qed.
 
@@ -185,15 +173,14 @@ Theorem merged_has_every_field_name inputs M tm u s d n :
   (forall u s, In (u, s) inputs -> wf_schema s) -> merge inputs = MOk M tm ->
   In (u, s) inputs -> In d s -> is_builtin (d_name d) = false -> d_name d <> "Node" -> fielded_kind (d_kind d) ->
   field_named n (d_fields d) = true -> n <> "id" -> is_builtin n = false ->
-  (is_root (d_name d) = true -> no_node_shape inputs (d_name d) n) ->
   exists D, In D M /\ d_name D = d_name d /\ field_named n (d_fields D) = true.
 Proof.
-  destruct inputs as [|[u0 s0] rest]; cbn [merge]; [discriminate|]. intros Hwf H Hi Hd Hb Hnode Hk Hn Hid Hbn Hr.
+  destruct inputs as [|[u0 s0] rest]; cbn [merge]; [discriminate|]. intros Hwf H Hi Hd Hb Hnode Hk Hn Hid Hbn.
   assert (HS : SupF ((u0, s0) :: rest) ([(u0, s0)] ++ rest) M).
   { eapply (merge_loop_supf ((u0, s0) :: rest) rest [(u0, s0)] s0 M); eauto.
     - intros x Hx. exact Hx.
     - apply inv_first. apply (Hwf u0 s0). now left.
     - apply supf_first. apply (Hwf u0 s0). now left. }
-  destruct (HS u s d n Hi Hd Hb Hnode Hk Hid Hbn Hr Hn) as (D & HfD & HnD).
+  destruct (HS u s d n Hi Hd Hb Hnode Hk Hid Hbn Hn) as (D & HfD & HnD).
   apply find_def_some in HfD as [HD HDn]. exists D. auto.
 Qed.
